@@ -151,6 +151,38 @@ def run_schema(rep: Report, programs, keep=None, labels="all"):
             seen_prog.add(info["program"])
             rep.function("generated:%s" % info["program"], info["generated"])
             rep.sample({"schema_program": info["program"], "template": info["source"][:300]})
+    # replay / bounded stand-in: the same programs rendered natively with concrete holes, raising at
+    # each hole in turn, with the render-state contract checked at run time
+    from .bounded.render_grid import grid
+    t0 = time.time()
+    nscen, grid_fail = 0, {}
+    for p in programs:
+        try:
+            probs = grid(p)
+        except Exception as e:
+            probs = [{"scenario": "grid", "problems": [repr(e)]}]
+        from .bounded.render_grid import hole_names
+        nscen += 1 + 2 * len(hole_names(p.source))
+        if probs:
+            grid_fail[p.name] = probs
+    for r in rep.results:
+        if (r.status == VIOLATED or (r.status == UNDECIDED and r.cand)) and "schema[" in r.oid:
+            name = r.oid.split("schema[", 1)[1].split("]", 1)[0]
+            if name in grid_fail:
+                r.replayed = True
+                r.replay = {"how": "the schematic template rendered natively with concrete holes (one raising), render-state contract checked at run time",
+                            "failures": grid_fail[name][:3]}
+    if grid_fail:
+        name = sorted(grid_fail)[0]
+        rep.add(Result(prefix + "schema.render-grid", VIOLATED, klass="B", backend="native-monitor", function="generated",
+                       bound="each schema program x (no raise | raise at hole i) x re-render", evaluations=nscen,
+                       detail="render state inconsistent for schema program %s: %s" % (name, grid_fail[name][0]),
+                       witness=grid_fail[name][0], replayed=True, replay={"failures": {k: v[:2] for k, v in list(grid_fail.items())[:4]}},
+                       time_s=time.time() - t0))
+    else:
+        rep.add(Result(prefix + "schema.render-grid", BOUNDED_OK, klass="B", backend="native-monitor", function="generated",
+                       bound="each schema program x (no raise | raise at hole i) x re-render", evaluations=nscen, time_s=time.time() - t0,
+                       detail="stacks restored, caller reset at every hole, later output reaches the base buffer, re-render unaffected"))
     rep.extra_cov["schema_programs"] = len(programs)
     rep.extra_cov["generated_functions_verified"] = nfun
     rep.trust("schema: /verif/vrf/schema (schematic templates compiled by the real mako compiler on every run)",
